@@ -221,10 +221,12 @@ class RaggedArray:
     def _append(self, array, fdv, fdi, vlen):
         vpos, ipos = fdv.seek(0, 2), fdi.seek(0, 2)
         try:
+            # the length of what is stored, not of the object as given
+            # (e.g. the string "12" converts to one number)
+            array = np.asarray(array, dtype=self.dtype)
             size = len(array)
             #endindex = self._values._memmap.shape[0]
-            vlenincr = self._values._append(np.asarray(array,
-                                                       dtype=self.dtype), fdv)
+            vlenincr = self._values._append(array, fdv)
             ilenincr = self._indices._append([[vlen, vlen + size]], fdi)
         except Exception:  # leave both files as they were before this array
             fdv.truncate(vpos)
